@@ -86,7 +86,9 @@ PROPS["C17"] = {
 
 PROPS["C16"] = {
     "lean": ["MysyncProofs.C16"],
-    "go": [("internal/app", "^TestVerifC16")],
+    "go": [("internal/app", "^TestVerifC16"),
+           # the observation layer: the real getNodeState against the model Observe.lean (the cascade flag must survive every failed probe)
+           ("internal/app", "^TestVerifObs$")],
     "level": "proof",
     "components": ["MysyncModel/App/Cascade.lean (findBestStreamFrom with explicit nil-dereference outcomes, repairCascadeNode as a decision over its call results)",
                    "MysyncModel/NodeState.lean (countHANodes, countRunningHASlaves, countAliveHASlavesWithinNodes, getDubiousHAHosts)",
@@ -196,7 +198,9 @@ PROPS["C01"] = {
 
 PROPS["C11"] = {
     "lean": ["MysyncProofs.C11"],
-    "go": [("internal/app", "^TestVerifC11$"), ("internal/app", "^TestVerifC01$")],
+    "go": [("internal/app", "^TestVerifC11$"), ("internal/app", "^TestVerifC01$"),
+           # 'while marked it is never in the published active list': every list the real updateActiveNodes publishes (C04's harness, C11-prefixed monitor)
+           ("internal/app", "^TestVerifC04$")],
     "level": "proof",
     "components": ["MysyncModel/App/Recovery.lean (checkRecovery incl. the stuck-commit timer, isSlavePermanentlyLost, SetRecovery write order, stale-master repair)",
                    "MysyncModel/App/Switchover.lean (marking before promotion)", "MysyncModel/App/ActiveNodes.lean (exclusion of marked hosts from the list)", "MysyncModel/GtidParse.lean, Gtid.lean"],
@@ -226,7 +230,9 @@ PROPS["C19"] = {
 
 PROPS["C10"] = {
     "lean": ["MysyncProofs.C10"],
-    "go": [("internal/app", "^TestVerifC10$")],
+    "go": [("internal/app", "^TestVerifC10$"),
+           # the master's semi-sync setting is brought to what the list implies by updateActiveNodes: C04's harness, C10-prefixed monitor
+           ("internal/app", "^TestVerifC04$")],
     "level": "proof",
     "components": ["MysyncModel/App/Repair.lean (repairSlaveNode non-cascade part, performChangeMaster as one action, TryRepairReplication / MarkReplicationRunning / getSuitableAlgorithmType / cooldownPassed, finite abstraction absPass for convergence)",
                    "replay monitors on the real statement log: unregistered host, self-pointing, recorded master written, reset without entitlement, re-pointing elsewhere than the recorded master, convergence on fault-free 6-pass runs"],
@@ -270,17 +276,19 @@ PROPS["C15"] = {
 PROPS["C03"] = {
     "facts": ["NewZookeeper"],
     "lean": ["MysyncProofs.C03"],
-    "go": [("internal/dcs", "^TestVerifC15$"), ("internal/app", "^TestVerifC05$")],
+    "go": [("internal/dcs", "^TestVerifC15$"), ("internal/app", "^TestVerifC05$"),
+           # the two lock re-confirmations inside the switchover are observed on the real procedure (monitors C03:promotion-without-both-lock-reconfirmations, C03:lock-not-reconfirmed-after-the-freeze)
+           ("internal/app", "^TestVerifC01$")],
     "level": "proof",
     "components": _ZK_COMPONENTS + ["MysyncModel/Dcs/LockSys.lean (N clients, one lock: global small-step system over the SAME programs, arbitrary interleaving, expiry, reconnect, cache with any TTL, lost replies and blind re-sends)",
                                     "MysyncModel/App/Manager.lean (stateManager: no lock, no step)"],
     "trusted": _ZK_TRUSTED + ["E5 (the server ends a session only after its client noticed the loss and while none of its operations is in flight) is an ASSUMPTION of told_true_means_holder / release_removes_only_own_lock: go-zookeeper's receive time-out (2/3 of the session time-out) vs. server expiry is runtime behaviour the model cannot exhibit; the counter-models without E5 are machine-checked",
                               "manager harness fakes (T4) for clause (ii)"],
-    "rule": _ZK_RULE + "; plus every manager iteration of the C05 runs (lock held / not held / disconnected x all inputs) for 'only the holder acts' (monitors C03:action-without-lock, C03:cluster-wide-write-without-lock)",
+    "rule": _ZK_RULE + "; plus every manager iteration of the C05 runs (lock held / not held / disconnected x all inputs) for 'only the holder acts' (monitors C03:action-without-lock, C03:cluster-wide-write-without-lock), plus every switchover run of the C01 harness (lock lost at either re-confirmation; monitors C03:promotion-without-both-lock-reconfirmations, C03:lock-not-reconfirmed-after-the-freeze)",
     "assumptions": ["distinct {hostname,pid} identities", "E5 for the first clause (partial: see level_note)",
                     "nobody but AcquireLock / ReleaseLock writes the lock key"],
     "min_lines": 2000,
-    "level_text": "Theorems over the N-client system, all interleavings, any TTL: every 'true' (fresh or cached) goes to the process that holds the lock at that instant; the holder is unique; after a session loss no cache entry and not holder; ReleaseLock only ever deletes its own lock (true only since the fix: commit found by this check — every attempt re-reads the owner); TTL 0 never answers from the cache; an iteration without the lock takes no step. Counter-models without E5 (stale cache, delete sent on a later session) and the pre-fix blind re-sent delete are kernel-checked.",
+    "level_text": "Theorems over the N-client system, all interleavings, any TTL: every 'true' (fresh or cached) goes to the process that holds the lock at that instant; the holder is unique; after a session loss no cache entry and not holder; ReleaseLock only ever deletes its own lock (true only since the fix: commit found by this check — every attempt re-reads the owner); TTL 0 never answers from the cache; an iteration without the lock takes no step; the maintenance handler leaves the mode (master key, repair, active list) only when told it holds the lock; the candidate handler only changes state. Counter-models without E5 (stale cache, delete sent on a later session) and the pre-fix blind re-sent delete are kernel-checked.",
     "level_note": "PARTIAL for the real-time part: whether a deployment satisfies E5 is decided by timers (client receive time-out vs. server-side expiry, process pauses), which no executable model exhibits. Clause (ii) for states other than Manager is enforced by monitors on real runs (action alphabet), not by a theorem.",
     "technique": "Lean 4 invariant proof over a global small-step system built from the programs that are differentially checked against the real client; monitors for ownership on real histories",
 }
@@ -328,7 +336,7 @@ PROPS["C20"] = {
     "lean": ["MysyncProofs.C20"],
     "go": [("internal/app", "^TestVerifC20$"), ("internal/app", "^TestVerifSim$"),
            # every handler-level harness recovers panics of the real handler: they are C20 violations wherever they occur
-           ("internal/app", "^TestVerifC05$"), ("internal/app", "^TestVerifC11$"), ("internal/app", "^TestVerifC16"), ("internal/app", "^TestVerifC01$")],
+           ("internal/app", "^TestVerifC05$"), ("internal/app", "^TestVerifC11$"), ("internal/app", "^TestVerifC16"), ("internal/app", "^TestVerifC01$"), ("internal/app", "^TestVerifObs$")],
     "level": "proof",
     "components": _SIM_COMPONENTS + ["explicit panic outcomes in Manager / Switchover / Recovery / ActiveNodes / Cascade models (each tied to the code by its own differential check, which compares the panic outcome too)"],
     "trusted": _SIM_TRUSTED + ["panic sites are identified by file:line of the first mysync frame below the panic"],
